@@ -1,12 +1,171 @@
 import GridVerif.Model.Proto
 import GridVerif.Model.Elem
+import GridVerif.Model.Becke
+import GridVerif.Gen.Becke
 
 namespace GridVerif.Driver.C06
-open GridVerif.Proto
+open GridVerif.Proto GridVerif.Becke GridVerif.Gen.Becke
 
-/-- Line-protocol handler of property C06: `C06.<op> args…` ↦ one answer line
-(`none` = malformed, answered `bad-op`). -/
+def showErr : Err → String
+  | .valueError => "value-error"
+  | .indexError => "index-error"
+  | .keyError => "key-error"
+  | .zeroDivision => "zero-division-error"
+
+def showRes : Except Err (List Float) → String
+  | .ok xs => "ok " ++ sFloats xs
+  | .error e => showErr e
+
+def toV3 : List Float → Option (V3 Float)
+  | [x, y, z] => some ⟨x, y, z⟩
+  | _ => none
+
+/-- `k z₁ v₁ … z_k v_k` (a nan value is the dictionary entry nan). -/
+def pOverrides : List String → Option (List (Nat × Option Float) × List String)
+  | [] => none
+  | n :: rest => do
+    let k ← n.toNat?
+    if rest.length < 2 * k then none else
+    let rec go : Nat → List String → Option (List (Nat × Option Float))
+      | 0, _ => some []
+      | k + 1, z :: v :: tl => do
+        let z ← pNat z
+        let v ← pFloat v
+        let r ← go k tl
+        pure ((z, if v != v then none else some v) :: r)
+      | _, _ => none
+    let xs ← go k rest
+    pure (xs, rest.drop (2 * k))
+
+/-- `-` = None, else a vector. -/
+def pOpt {α} (p : String → Option α) : List String → Option (Option (List α) × List String)
+  | "-" :: rest => some (none, rest)
+  | toks => do
+    let (xs, rest) ← pVec p toks
+    pure (some xs, rest)
+
+structure MolIn where
+  order : Nat
+  mol : Except Err (Mol Float)
+  rest : List String
+
+/-- `order atnums overrides coords` -/
+def pMol (toks : List String) : Option MolIn := do
+  match toks with
+  | [] => none
+  | o :: rest =>
+    let order ← pNat o
+    let (atnums, rest) ← pVec pNat rest
+    let (ov, rest) ← pOverrides rest
+    let (coords, rest) ← pMat pFloat rest
+    let pos ← coords.mapM toV3
+    if pos.length ≠ atnums.length then none else
+    let d : RadDict Float := updateDict braggDict ov
+    let radii : Except Err (List Float) := atnums.mapM (effRadius d)
+    let posA := pos.toArray
+    let mol := radii.map fun rs =>
+      let rA := rs.toArray
+      ({ natom := pos.length, pos := fun i => posA.getD i ⟨0, 0, 0⟩, rad := fun i => rA.getD i 0 } : Mol Float)
+    pure ⟨order, mol, rest⟩
+
+def pPoints (toks : List String) : Option (List (V3 Float) × List String) := do
+  let (pts, rest) ← pMat pFloat toks
+  let ps ← pts.mapM toV3
+  pure (ps, rest)
+
+def routeOf : String → Option (Route Float)
+  | "gw" => some routeGW
+  | "caw" => some routeCAW
+  | _ => none
+
+def showTrace (t : List (Nat × Nat × List Int)) : String :=
+  String.intercalate " " (toString t.length :: t.map fun (b, n, ind) => s!"{b} {n} {sInts ind}")
+
 def handle : List String → Option String
+  -- generated formulas (translator self-check)
+  | ["C06.switch", x, order] => do
+    let x ← pFloat x; let n ← pNat order
+    pure ("ok " ++ sFloat (switchFunc x n))
+  | ["C06.alpha", ra, rb] => do
+    let ra ← pFloat ra; let rb ← pFloat rb
+    pure ("ok " ++ sFloat (alpha ra rb))
+  | ["C06.alphaclip", a, c] => do
+    let a ← pFloat a; let c ← pFloat c
+    pure ("ok " ++ sFloat (alphaClip a c))
+  | ["C06.cutoff"] => pure ("ok " ++ sFloat (defaultCutoff : Float))
+  | ["C06.chunk", n, m] => do
+    let n ← pNat n; let m ← pNat m
+    if m = 0 then pure "zero-division-error" else pure s!"ok {chunkSize n m}"
+  | "C06.radius" :: z :: rest => do
+    let z ← pNat z
+    let (ov, rest) ← pOverrides rest
+    if rest ≠ [] then none else
+    match effRadius (updateDict (braggDict : RadDict Float) ov) z with
+    | .ok r => pure ("ok " ++ sFloat r)
+    | .error e => pure (showErr e)
+  -- all normalised cell values: matrix points × atoms
+  | "C06.weights" :: route :: rest => do
+    let r ← routeOf route
+    let m ← pMol rest
+    let (pts, rest) ← pPoints m.rest
+    if rest ≠ [] then none else
+    match m.mol with
+    | .error e => pure (showErr e)
+    | .ok mol =>
+      let rows := pts.map fun p => (List.range mol.natom).map fun A => weight r mol m.order p A
+      pure ("ok " ++ sMat sFloat rows)
+  | "C06.generate" :: rest => do
+    let m ← pMol rest
+    let (pts, rest) ← pPoints m.rest
+    let (sel, rest) ← pOpt pNat rest
+    let (ind, rest) ← pOpt pInt rest
+    if rest ≠ [] then none else
+    match m.mol with
+    | .error e => pure (showErr e)
+    | .ok mol => pure (showRes (generateWeights (weight routeGW mol m.order) mol.natom pts sel ind))
+  | "C06.compute" :: rest => do
+    let m ← pMol rest
+    let (pts, rest) ← pPoints m.rest
+    let (sel, rest) ← pOpt pNat rest
+    let (ind, rest) ← pOpt pInt rest
+    if rest ≠ [] then none else
+    match m.mol with
+    | .error e => pure (showErr e)
+    | .ok mol => pure (showRes (computeWeights (weight routeCAW mol m.order) mol.natom pts sel ind))
+  | "C06.atom" :: rest => do
+    let m ← pMol rest
+    let (pts, rest) ← pPoints m.rest
+    match rest with
+    | [k] =>
+      let k ← pNat k
+      match m.mol with
+      | .error e => pure (showErr e)
+      | .ok mol => pure (showRes (computeAtomWeight (weight routeCAW mol m.order) mol.natom pts k))
+    | _ => none
+  | "C06.call" :: rest => do
+    let m ← pMol rest
+    let (pts, rest) ← pPoints m.rest
+    let (ind, rest) ← pVec pInt rest
+    if rest ≠ [] then none else
+    match m.mol with
+    | .error e => pure (showErr e)
+    | .ok mol => pure (showRes (call (weight routeGW mol m.order) mol.natom pts ind))
+  | "C06.calltrace" :: n :: m :: rest => do
+    let n ← pNat n; let m ← pNat m
+    let (ind, rest) ← pVec pInt rest
+    if rest ≠ [] then none else
+    if m = 0 then pure "zero-division-error" else
+    pure ("ok " ++ showTrace (callTrace n m ind))
+  -- Hirshfeld: matrix atoms × points of pro-atom densities, index table
+  | "C06.hirshfeld" :: rest => do
+    let (rho, rest) ← pMat pFloat rest
+    let (ind, rest) ← pVec pInt rest
+    if rest ≠ [] then none else
+    let M := rho.length
+    let N := match rho with | [] => 0 | r :: _ => r.length
+    let arr := (rho.map List.toArray).toArray
+    let rhoF : Nat → Nat → Float := fun i j => (arr.getD i #[]).getD j 0
+    pure (showRes (hirshfeld rhoF M (List.range N) ind))
   | _ => none
 
 end GridVerif.Driver.C06
